@@ -452,6 +452,14 @@ def run_writer_case(case):
         if v is not None:
             return v
         cl.append('roundtrip v%d' % version)
+        # the same Writer object writes its file once more: nothing it did for the first write may change the second
+        try:
+            wr.write_to_file()
+        except Exception as e:  # noqa
+            return Violation('c06:second-write-raises:%s' % type(e).__name__, {'version': version, 'exc': repr(e)[:200]}, cl)
+        v = check_file(path, w, version, pool, segs, cl, 'second write of the same Writer')
+        if v is not None:
+            return v
         if len(segs) >= 2 and any(s >= (1 << 14) for s, _, _, _ in segs):
             shared = any(op[0] == 'segment' and op[5] in ('shared', 'data-overlap') for op in case['ops'])
             if shared or any(l > dl for _, l, _, dl in segs):
